@@ -22,7 +22,7 @@ CONFIG = {"quick": {"shards": 8, "timeout_s": 900, "cases": 200},
           "thorough": {"shards": 16, "timeout_s": 3000, "cases": 6000}}
 REQUIRED_COUNTERS = ["purity_checks_on_return", "purity_checks_on_exception", "repeat_bit_identical_checks",
                      "history_vs_fresh_checks", "history_vs_fresh_after_failure", "heat_from_stored_hydraulics_checks",
-                     "edit_and_restore_checks", "outcome_class_checks"]
+                     "edit_and_restore_checks", "outcome_class_checks", "calls_after_feeder_switching"]
 
 _EVENTS = []
 
@@ -60,6 +60,12 @@ def make(case):
         spec = netgen.gen_hydraulic(rng, features=[("valves", "pi_valves"), ("pump", "compressor", "mass_storage"),
                                                    ("flow_control", "press_control", "heat_exchanger"),
                                                    ("islands", "oos", "multi_grid")][int(rng.integers(4))])
+        if any(j["name"] for j in spec["junctions"]) and len(spec["junctions"]) > sum(1 for e in spec["elements"] if e["kind"] == "x") and \
+                any(e["kind"] == "sink" and e["junction"] == spec["junctions"][-1]["name"] for e in spec["elements"]):
+            # islands feature: the island gets its own feeder that edits switch off and on again
+            eg0 = [e for e in spec["elements"] if e["kind"] == "ext_grid"][0]
+            spec["elements"].append({"kind": "ext_grid", "name": "eg_island", "junction": spec["junctions"][-1]["name"],
+                                     "p_bar": eg0["p_bar"] * 0.9, "t_k": 300.0, "in_service": True})
     nan_outer = bool(rng.random() < 0.3)
     calls = []
     edited = False
@@ -85,6 +91,8 @@ def make(case):
         elif e < 0.45 and edited:
             edit = ("restore", None)
             edited = False
+        elif e < 0.5 and any(x["name"] == "eg_island" for x in spec["elements"]):
+            edit = ("feeder", bool(rng.random() < 0.5))
         elif e < 0.55:
             edit = ("user_options", [{"tol_p": 1e-7, "max_iter_hyd": 60}, {"iter": 70, "tol_m": 1e-6}, {"iter": 80, "max_iter_therm": 90}][int(rng.integers(3))])
         elif e < 0.6:
@@ -109,6 +117,9 @@ def apply_edit(net, edit, state):
             col = "mdot_kg_per_s" if t == "sink" else "controlled_mdot_kg_per_s"
             if "orig_" + t in state:
                 net[t][col] = state.pop("orig_" + t)
+    elif kind == "feeder":
+        if "ext_grid" in net and (net.ext_grid["name"] == "eg_island").any():
+            net.ext_grid.loc[net.ext_grid["name"] == "eg_island", "in_service"] = arg
     elif kind == "user_options":
         pp.set_user_pf_options(net, **arg)
     elif kind == "clear_user_options":
@@ -237,6 +248,8 @@ def run_case(case, ctx):
                     obs.count("history_vs_fresh_after_failure")
                 if any(e[0] == "restore" for e in edits_so_far):
                     obs.count("edit_and_restore_checks")
+                if any(e[0] == "feeder" for e in edits_so_far):
+                    obs.count("calls_after_feeder_switching")
                 bad = diff(a, b)
                 if bad:
                     obs.violate("results_depend_on_history", "call %d: result tables %s differ from those of a fresh copy" % (ci, bad),
